@@ -388,7 +388,7 @@ fn worker(ctx: &Ctx) {
     match ctx.tier {
         Tier::Quick => {
             // 3 random configurations per worker, each fully enumerated
-            let cfgs = ctx.sample("c07-configs", &config_strategy(), 3);
+            let cfgs = ctx.sample("c07-configs", &config_strategy(), 8);
             for (i, c) in cfgs.iter().enumerate() {
                 if !enumerate_config(ctx, c, ctx.sub_seed("errno") ^ i as u64) {
                     break;
@@ -420,7 +420,7 @@ fn replay(ctx: &Ctx, _engine: &str, case: &Value) -> CaseResult {
 pub static C07: PropDef = PropDef {
     id: "C07",
     level: "fault_enumeration",
-    rule: "for a configuration (stdin/stdout/stderr in {None, Pipe, File} plus the Merge forms, detached on/off, cwd, setuid+setgid (to 0), setpgid, command with slash / via PATH) a dry run counts the calls the crate makes of each kind: parent side pipe, fcntl(F_GETFD/F_SETFD), fork; child side chdir, dup2, setuid, setgid, setpgid, exec. Then every (kind, k) is failed once with an errno drawn from a list of 14, and eight real causes are applied (missing program, no x bit, directory, text file without interpreter, missing / non-directory / over-long cwd, name missing on PATH). Quick = 48 random configurations, thorough = all 1056. Oracle: no fault -> Ok(Popen) and the helper's report exists (the image really started); fault -> Err(IoError) carrying the failing step's errno, no report, waitpid(-1) = ECHILD, descriptor table identical to before the call (the config's own files count as the attempt's). Non-trivial = a fault was injected or a real cause applied; distinct = distinct (configuration, fault) pairs.",
+    rule: "for a configuration (stdin/stdout/stderr in {None, Pipe, File} plus the Merge forms, detached on/off, cwd, setuid+setgid (to 0), setpgid, command with slash / via PATH) a dry run counts the calls the crate makes of each kind: parent side pipe, fcntl(F_GETFD/F_SETFD), fork; child side chdir, dup2, setuid, setgid, setpgid, exec. Then every (kind, k) is failed once with an errno drawn from a list of 14, and eight real causes are applied (missing program, no x bit, directory, text file without interpreter, missing / non-directory / over-long cwd, name missing on PATH). Quick = 128 random configurations, thorough = all 1056. Oracle: no fault -> Ok(Popen) and the helper's report exists (the image really started); fault -> Err(IoError) carrying the failing step's errno, no report, waitpid(-1) = ECHILD, descriptor table identical to before the call (the config's own files count as the attempt's). Non-trivial = a fault was injected or a real cause applied; distinct = distinct (configuration, fault) pairs.",
     assumptions: &["faults are injected at the libc boundary by link-time interposition, in the parent and (through inherited statics) in the forked child", "setuid/setgid are exercised with id 0 (a no-op as root) so that the calls exist and can be failed"],
     engines: "real",
     workers: |_| 16,
